@@ -105,7 +105,14 @@ func printable(x RS) bool {
 // checkSet checks every single-scope law for the scope built from list l.
 func checkSet(l []RS, probes []RS, v *vt.V) (ociauth.Scope, bool) {
 	want := mkset(l)
-	s := ociauth.NewScope(cp(l)...)
+	arg := cp(l)
+	s := ociauth.NewScope(arg...)
+	// the caller's slice is the caller's: it is used again (here as the scratch buffer of another
+	// scope) and what s holds does not change
+	for i := range arg {
+		arg[i] = RS{ResourceType: "zz-reused", Resource: "slot", Action: fmt.Sprint(i)}
+	}
+	ociauth.NewScope(arg...)
 	fail := func(sig, f string, a ...any) (ociauth.Scope, bool) {
 		v.Failf(sig, "scope built from %v: %s", l, fmt.Sprintf(f, a...))
 		return s, false
@@ -127,6 +134,18 @@ func checkSet(l []RS, probes []RS, v *vt.V) (ociauth.Scope, bool) {
 	for i := 1; i < len(got); i++ {
 		if got[i-1].Compare(got[i]) >= 0 {
 			return fail("iter", "Iter not strictly ascending at %v, %v", got[i-1], got[i])
+		}
+	}
+	// one iterator value can be run again, also after a run that was stopped early
+	it := s.Iter()
+	for pass := 0; pass < 3; pass++ {
+		var again []RS
+		it(func(x RS) bool {
+			again = append(again, x)
+			return pass != 1 // the second run stops at the first item
+		})
+		if wantN := len(ws); pass != 1 && (len(again) != wantN || fmt.Sprint(again) != fmt.Sprint(ws)) {
+			return fail("iter-rerun", "run %d of one iterator value yields %v, want %v", pass+1, again, ws)
 		}
 	}
 	// the iterator stops when told
@@ -338,7 +357,7 @@ type SetScript struct {
 var propSets = &vt.Prop[SetScript]{
 	ID:   "C09",
 	Name: "ScopeSetsSmallUniverse",
-	Rule: "complete enumeration of all subsets of size <= 3 of the 60-triple universe widened by the actions 'purge' (sorts between pull and push) and 'PULL' (84 triples); oracle = naive set model: Len, IsEmpty, Iter (exact elements, strictly ascending, stops when told), Holds for all 84 triples, equality with the reversed and duplicated presentation, containment vs unlimited (incl. the empty set) and inequality with it, print/parse round trip on the stated domain (non-empty fields without whitespace, colon, comma), catalog vs repository separation; every non-empty set is non-trivial",
+	Rule: "complete enumeration of all subsets of size <= 3 of the 60-triple universe widened by the actions 'purge' (sorts between pull and push) and 'PULL' (84 triples); oracle = naive set model: Len, IsEmpty, the argument slice overwritten and reused after construction, one iterator value run three times (the second run stopped early), Iter (exact elements, strictly ascending, stops when told), Holds for all 84 triples, equality with the reversed and duplicated presentation, containment vs unlimited (incl. the empty set) and inequality with it, print/parse round trip on the stated domain (non-empty fields without whitespace, colon, comma), catalog vs repository separation; every non-empty set is non-trivial",
 	Run: func(s SetScript, v *vt.V) {
 		l := pick(s.A)
 		if _, ok := checkSet(l, universe, v); !ok {
